@@ -107,6 +107,7 @@ of_mod2sparse* of_create_pchck_matrix_rfc5170_compliant (UINT32		nb_rows,
 				}
 				while (of_mod2sparse_find (pchkMatrix, u[i], j));
 				of_mod2sparse_insert (pchkMatrix, u[i], j);
+				OF_VERIF_EVENT ("pchk_insert", pchkMatrix, u[i], j, 0, 0);
 				/* replace with u[t] which has never been chosen */
 				u[i] = u[t];
 				t++;
@@ -124,6 +125,7 @@ of_mod2sparse* of_create_pchck_matrix_rfc5170_compliant (UINT32		nb_rows,
 				}
 				while (of_mod2sparse_find (pchkMatrix, i, j));
 				of_mod2sparse_insert (pchkMatrix, i, j);
+				OF_VERIF_EVENT ("pchk_insert", pchkMatrix, i, j, 1, 0);
 			}
 		}
 	}
@@ -141,6 +143,7 @@ of_mod2sparse* of_create_pchck_matrix_rfc5170_compliant (UINT32		nb_rows,
 		{
 			j = (of_rfc5170_rand (nbDataCols)) + skipCols;
 			e = of_mod2sparse_insert (pchkMatrix, i, j);
+			OF_VERIF_EVENT ("pchk_insert", pchkMatrix, i, j, 2, 0);
 			added ++;
 		}
 		e = of_mod2sparse_first_in_row (pchkMatrix, i);
@@ -152,6 +155,7 @@ of_mod2sparse* of_create_pchck_matrix_rfc5170_compliant (UINT32		nb_rows,
 			}
 			while (j == of_mod2sparse_col (e));
 			of_mod2sparse_insert (pchkMatrix, i, j);
+			OF_VERIF_EVENT ("pchk_insert", pchkMatrix, i, j, 3, 0);
 			added ++;
 		}
 	}
@@ -174,6 +178,7 @@ of_mod2sparse* of_create_pchck_matrix_rfc5170_compliant (UINT32		nb_rows,
 		/* staircase */
 		of_mod2sparse_insert (pchkMatrix, i, i - 1);
 	}
+	OF_VERIF_EVENT ("pchk_done", pchkMatrix, nb_rows, nb_cols, left_degree, seed);
 	OF_EXIT_FUNCTION
 	return pchkMatrix;
 }
